@@ -240,6 +240,39 @@ def observed(fn):
     return out, opened
 
 
+class Buffered:
+    """Proxy for the Check object: violations are collected and emitted most severe first
+    (files opened outside the search directories before wrong answers) and a few per
+    fingerprint first, so that the replay files written for the first violations cover every
+    kind of failure."""
+    RANK = {"opened-outside": 0, "not-rejected": 1, "wrong-file": 2, "not-found": 3}
+
+    def __init__(self, ck):
+        object.__setattr__(self, "_ck", ck)
+        object.__setattr__(self, "_items", [])
+
+    def __getattr__(self, k):
+        return getattr(self._ck, k)
+
+    def __setattr__(self, k, v):
+        setattr(self._ck, k, v)
+
+    def violation(self, case, what, fingerprint=None):
+        fp = fingerprint or {}
+        self._items.append((self.RANK.get(fp.get("what"), 2), len(self._items), case, what, fp))
+        return True
+
+    def flush(self, per_fp=2):
+        first, rest, seen = [], [], {}
+        for it in sorted(self._items, key=lambda x: x[:2]):
+            k = json.dumps(it[4], sort_keys=True)
+            seen[k] = seen.get(k, 0) + 1
+            (first if seen[k] <= per_fp else rest).append(it)
+        for it in first + rest:
+            self._ck.violation(it[2], it[3], it[4])
+        del self._items[:]
+
+
 def inside(path, dirs):
     return any(path.startswith(d.rstrip("/") + "/") for d in dirs)
 
@@ -349,41 +382,43 @@ def check_controls(ck, ctl):
                                       f"the model (tree, alphabet or invariant) is vacuous")
 
 
-def part_fs(ck):
+CTL_FRAGS = lambda tree: [[], [".", "."], ["a"], ["sub"], BSX, ["\\"], tree.abs_frag]  # noqa: E731
+
+
+def fs_tlc(ck, tree):
+    """the two TLC runs of part 1 (called from a worker thread)"""
     quick = ck.tier == "quick"
-    tree = Tree()
-    try:
-        frags = tree.frags()
-        t0 = time.time()
-        # control instance: all switch settings, both platforms, liveness, action coverage
-        r0 = run_loaders_tlc("ctl", tree.files, tree.loaders, frags, 2, platforms=(POSIX, WINDOWS),
-                             switches=(CODE, NOPARDIR, NOSEP, NOSPLIT), coverage=True, liveness=True, workers=8)
-        ck.add_tlc(r0, "Loaders: <= 2 segments, POSIX + Windows, 4 switch settings (liveness, coverage)")
-        ck.require_coverage(r0, ["Grow", "Start", "SplitReject", "SplitKeep", "SplitDrop", "SplitDone", "TryDirHit",
-                                 "TryDirMiss", "NotFound"])
-        ctl = behaviours(r0)
-        check_controls(ck, ctl)
-        maxsegs = 3 if quick else 4
-        r = run_loaders_tlc("main", tree.files, tree.loaders, frags, maxsegs, platforms=(POSIX, WINDOWS))
-        ck.add_tlc(r, f"Loaders: {len(frags)} fragments, <= {maxsegs} segments, POSIX (4 loaders) + Windows (3 loaders)")
-        main = behaviours(r)
-        if not main:
-            raise core.MachineryError("Loaders.tla printed no behaviours")
-        t1 = time.time()
-        lines = {k: b for k, b in list(ctl.items()) + list(main.items()) if k[0] == "/" and all(k[1])}
-        ck.extra["windows_behaviours_model_only"] = sum(1 for k in main if k[0] != "/")
-        # Environment.get_template for every name that resolves and for the short rejected ones
-        n = replay_fs_lines(ck, tree, lines, lambda b: b["o"] != NF or len(b["n"]) <= 6)
-        ck.traces += n
-        ck.evaluations += n
-        ck.extra["fs_names"] = len(lines)
-        ck.extra["fs_resolved"] = sum(1 for b in lines.values() if b["o"] != NF)
-        t2 = time.time()
-        ck.extra.setdefault("phase_s", {}).update({"fs_tlc": round(t1 - t0, 1), "fs_replay": round(t2 - t1, 1)})
-    finally:
-        sys.path[:] = [p for p in sys.path if p != loc_path(tree.pkgs)]
-        sys.modules.pop("jvpkg28", None)
-        tree.close()
+    frags = tree.frags()
+    # control instance: all switch settings, both platforms, liveness, action coverage
+    r0 = run_loaders_tlc("ctl", tree.files, tree.loaders, CTL_FRAGS(tree), 2, platforms=(POSIX, WINDOWS),
+                         switches=(CODE, NOPARDIR, NOSEP, NOSPLIT), coverage=True, liveness=True, workers=4)
+    maxsegs = 3 if quick else 4
+    r = run_loaders_tlc("main", tree.files, tree.loaders, frags, maxsegs, platforms=(POSIX, WINDOWS),
+                        workers=6 if quick else 12)
+    return r0, r, maxsegs
+
+
+def part_fs(ck, tree, res):
+    r0, r, maxsegs = res
+    t1 = time.time()
+    ck.add_tlc(r0, "Loaders: <= 2 segments, POSIX + Windows, 4 switch settings (liveness, coverage)")
+    ck.require_coverage(r0, ["Grow", "Start", "SplitReject", "SplitKeep", "SplitDrop", "SplitDone", "TryDirHit",
+                             "TryDirMiss", "NotFound"])
+    ctl = behaviours(r0)
+    check_controls(ck, ctl)
+    ck.add_tlc(r, f"Loaders: {len(tree.frags())} fragments, <= {maxsegs} segments, POSIX (4 loaders) + Windows (3 loaders)")
+    main = behaviours(r)
+    if not main:
+        raise core.MachineryError("Loaders.tla printed no behaviours")
+    lines = {k: b for k, b in list(ctl.items()) + list(main.items()) if k[0] == "/" and all(k[1])}
+    ck.extra["windows_behaviours_model_only"] = sum(1 for k in main if k[0] != "/")
+    # Environment.get_template for every name that resolves and for the short rejected ones
+    n = replay_fs_lines(ck, tree, lines, lambda b: b["o"] != NF or len(b["n"]) <= 6)
+    ck.traces += n
+    ck.evaluations += n
+    ck.extra["fs_names"] = len(lines)
+    ck.extra["fs_resolved"] = sum(1 for b in lines.values() if b["o"] != NF)
+    ck.extra.setdefault("phase_s", {}).update({"fs_replay": round(time.time() - t1, 1)})
 
 
 # ---------------------------------------------------------------------------
@@ -404,12 +439,17 @@ def zip_setup():
     return z, base, files, data, {"zip": {"dirs": [root], "norm": True}}, frags
 
 
-def part_zip(ck):
+def zip_tlc(ck, zs):
+    z, base, files, data, loaders, frags = zs
+    maxsegs = 3 if ck.tier == "quick" else 4
+    return run_loaders_tlc("zip", files, loaders, frags, maxsegs, workers=2), maxsegs
+
+
+def part_zip(ck, zs, res):
     from jinja2 import PackageLoader
     t0 = time.time()
-    z, base, files, data, loaders, frags = zip_setup()
-    maxsegs = 3 if ck.tier == "quick" else 4
-    r = run_loaders_tlc("zip", files, loaders, frags, maxsegs, workers=8)
+    z, base, files, data, loaders, frags = zs
+    r, maxsegs = res
     ck.add_tlc(r, f"Loaders: zip archive tree, <= {maxsegs} segments")
     lines = behaviours(r)
     sys.path.insert(0, z)
@@ -436,7 +476,7 @@ def part_zip(ck):
     finally:
         sys.path[:] = [p for p in sys.path if p != z]
         sys.modules.pop("t_pack", None)
-    ck.extra.setdefault("phase_s", {})["zip"] = round(time.time() - t0, 1)
+    ck.extra.setdefault("phase_s", {})["zip_replay"] = round(time.time() - t0, 1)
 
 
 # ---------------------------------------------------------------------------
@@ -449,7 +489,7 @@ LEAF_HAS = {
 }
 
 
-def compose_names():
+def compose_names(quick=False):
     names = [[], ["a"], ["b"], ["p"], ["/"], ["p", "/"], ["/", "a"], ["p", "/", "/", "a"], [":", "a"], ["p", ":"],
              ["p", "/", ":", "a"]]
     for w1 in "pqa":
@@ -460,8 +500,9 @@ def compose_names():
         for d1 in "/:":
             for w2 in "pqa":
                 for d2 in "/:":
-                    for w3 in "ab":
-                        names.append([w1, d1, w2, d2, w3])
+                    for w3 in ("a" if quick else "ab"):
+                        if not quick or w2 != "p":
+                            names.append([w1, d1, w2, d2, w3])
     return names
 
 
@@ -637,26 +678,36 @@ def compose_behaviours(r):
     return seen
 
 
-def part_compose(ck):
-    quick = ck.tier == "quick"
-    t0 = time.time()
+def compose_inputs(ck):
     rnd = random.Random(ck.seed * 7919 + 28)
     d1 = depth1()
-    nrand = 120 if quick else 1500
+    nrand = 60 if ck.tier == "quick" else 1500
     comps = [leaf("A")] + d1 + [random_comp(rnd, d1) for _ in range(nrand)]
-    names = compose_names()
-    r = run_compose_tlc("compose", comps, names, coverage=quick)
+    return comps, compose_names(ck.tier == "quick"), len(d1), nrand
+
+
+def compose_tlc(ck, inp):
+    comps, names, nd1, nrand = inp
+    quick = ck.tier == "quick"
+    r = run_compose_tlc("compose", comps, names, workers=4 if quick else 12)
+    # termination (liveness) and action coverage on the compositions of depth <= 1
+    rl = run_compose_tlc("compose_live", comps[:1 + nd1], names[:24] if quick else names, liveness=True,
+                         coverage=True, workers=2)
+    return r, rl
+
+
+def part_compose(ck, inp, res):
+    comps, names, nd1, nrand = inp
+    r, rl = res
+    t1 = time.time()
     ck.add_tlc(r, f"LoaderCompose: {len(comps)} compositions (all of depth <= 1, {nrand} random of depth 2) "
                   f"x {len(names)} names")
-    if quick:
-        ck.require_coverage(r, ["LeafLookup", "ChoiceTry", "ChoiceCatch", "ChoiceReturn", "ChoiceExhausted",
-                                "PrefixRoute", "PrefixNoRoute", "PrefixReturn"])
-        rl = run_compose_tlc("compose_live", comps[:1 + len(d1)], names[:30], liveness=True, workers=4)
-        ck.add_tlc(rl, "LoaderCompose: termination, depth <= 1")
+    ck.require_coverage(rl, ["LeafLookup", "ChoiceTry", "ChoiceCatch", "ChoiceReturn", "ChoiceExhausted",
+                            "PrefixRoute", "PrefixNoRoute", "PrefixReturn"])
+    ck.add_tlc(rl, "LoaderCompose: termination + coverage, depth <= 1")
     lines = compose_behaviours(r)
     if len(lines) != len(comps) * len(names):
         raise core.MachineryError(f"LoaderCompose printed {len(lines)} behaviours, expected {len(comps) * len(names)}")
-    t1 = time.time()
     kit = LeafKit()
     try:
         n = compare_compose(ck, kit, comps, lines)
@@ -668,17 +719,41 @@ def part_compose(ck):
     ck.extra["compositions"] = len(comps)
     ck.extra["compose_cases"] = n
     ck.extra["compose_resolved"] = sum(1 for b in lines.values() if b["r"] != ["TemplateNotFound"])
-    ck.extra.setdefault("phase_s", {}).update(
-        {"compose_tlc": round(t1 - t0, 1), "compose_replay": round(time.time() - t1, 1)})
+    ck.extra.setdefault("phase_s", {}).update({"compose_replay": round(time.time() - t1, 1)})
 
 
 # ---------------------------------------------------------------------------
-def run(ck):
+def run(ck0):
+    from concurrent.futures import ThreadPoolExecutor
     core.use_repo()
     install_hook()
-    part_fs(ck)
-    part_zip(ck)
-    part_compose(ck)
+    ck = Buffered(ck0)
+    tree = Tree()
+    try:
+        zs = zip_setup()
+        inp = compose_inputs(ck)
+        parts = set(os.environ.get("JV_C28_PARTS", "fs,zip,compose").split(","))  # development aid
+        t0 = time.time()
+        # the independent TLC runs go side by side (each with a share of the cores)
+        with ThreadPoolExecutor(3) as ex:
+            f_fs = ex.submit(fs_tlc, ck, tree) if "fs" in parts else None
+            f_zip = ex.submit(zip_tlc, ck, zs) if "zip" in parts else None
+            f_co = ex.submit(compose_tlc, ck, inp) if "compose" in parts else None
+            res = [f.result() if f else None for f in (f_fs, f_zip, f_co)]
+        ck.extra.setdefault("phase_s", {})["tlc_all"] = round(time.time() - t0, 1)
+        if res[0]:
+            part_fs(ck, tree, res[0])
+        if res[1]:
+            part_zip(ck, zs, res[1])
+        if res[2]:
+            part_compose(ck, inp, res[2])
+        if parts != {"fs", "zip", "compose"}:
+            raise core.MachineryError(f"partial run (JV_C28_PARTS={sorted(parts)}), violations so far: {len(ck._items)}")
+    finally:
+        ck.flush()
+        sys.path[:] = [p for p in sys.path if p != loc_path(tree.pkgs)]
+        sys.modules.pop("jvpkg28", None)
+        tree.close()
     ck.extra["excluded_shapes"] = [
         "relative search paths, followlinks=True and symlinks inside the tree (what 'inside' means for a link "
         "target is not fixed by the property)",
@@ -698,7 +773,15 @@ def run(ck):
 
 
 # ---------------------------------------------------------------------------
-def replay(ck, rec):
+def replay(ck0, rec):
+    ck = Buffered(ck0)
+    try:
+        _replay(ck, rec)
+    finally:
+        ck.flush()
+
+
+def _replay(ck, rec):
     core.use_repo()
     install_hook()
     c = rec["case"]
